@@ -65,6 +65,97 @@ func (g *gridState) summary() map[string]interface{} {
 	return out
 }
 
+// attainableVsObserved compares, per decoder type, the set of tenths the reference model says are
+// attainable over the whole valid domain with the set actually observed in this run.
+func attainableVsObserved(g *gridState) map[string]interface{} {
+	var att [6][101]bool
+	t3 := spec.Tables3()
+	var base3 [101]bool
+	for av := 0; av < 4; av++ {
+		for ac := 0; ac < 2; ac++ {
+			for pr := 0; pr < 3; pr++ {
+				for ui := 0; ui < 2; ui++ {
+					for s := 0; s < 2; s++ {
+						for cia := 0; cia < 27; cia++ {
+							base3[t3.Base[av][ac][pr][ui][s][cia/9][cia/3%3][cia%3]] = true
+							for ver := 0; ver < 2; ver++ {
+								for req := 0; req < 27; req++ {
+									inner := t3.EnvInner[ver][av][ac][pr][ui][s][cia][req]
+									for ti := 0; ti < 100; ti++ {
+										att[lib.K3E][t3.Temp[inner][ti/20][ti/4%5][ti%4]] = true
+									}
+								}
+							}
+						}
+					}
+				}
+			}
+		}
+	}
+	for b := 0; b <= 100; b++ {
+		if base3[b] {
+			att[lib.K3B][b] = true
+			for ti := 0; ti < 100; ti++ {
+				att[lib.K3T][t3.Temp[b][ti/20][ti/4%5][ti%4]] = true
+			}
+		}
+	}
+	// v2: union of the admissible sets (ties make both neighbours attainable)
+	mark := func(k lib.Kind, set spec.TSet) {
+		for _, x := range set {
+			if x >= 0 && x <= 100 {
+				att[k][x] = true
+			}
+		}
+	}
+	for bi := 0; bi < nBase2; bi++ {
+		var v spec.V2
+		base2(&v, bi)
+		for ti := -1; ti < 100; ti++ {
+			v.HasT = false
+			if ti >= 0 {
+				temporal2(&v, ti)
+			}
+			v.HasE = false
+			e := spec.Expect2(&v)
+			mark(lib.K2B, e.Base)
+			mark(lib.K2T, e.Temp)
+			mark(lib.K2E, e.Env)
+			v.HasE = true
+			for req := 0; req < 64; req++ {
+				v.M[spec.V2CR], v.M[spec.V2IR], v.M[spec.V2AR] = int8(req/16), int8(req%16/4), int8(req%4)
+				adj := spec.Tables2().Adj[v.M[0]][v.M[1]][v.M[2]][v.M[3]][v.M[4]][v.M[5]][v.M[spec.V2CR]][v.M[spec.V2IR]][v.M[spec.V2AR]]
+				at := adj
+				if v.HasT {
+					at = spec.V2TemporalSet(adj, int(v.M[spec.V2E]), int(v.M[spec.V2RL]), int(v.M[spec.V2RC]))
+				}
+				for ct := 0; ct < 30; ct++ {
+					set, _ := spec.V2EnvSet(at, ct/5, ct%5)
+					mark(lib.K2E, set)
+				}
+			}
+		}
+	}
+	out := map[string]interface{}{}
+	for k := lib.Kind(0); k < lib.NKinds; k++ {
+		notObs, notAtt := []float64{}, []float64{}
+		n := 0
+		for t := 0; t <= 100; t++ {
+			if att[k][t] {
+				n++
+			}
+			if att[k][t] && !g.seen[k][t].Load() {
+				notObs = append(notObs, float64(t)/10)
+			}
+			if !att[k][t] && g.seen[k][t].Load() {
+				notAtt = append(notAtt, float64(t)/10)
+			}
+		}
+		out[k.String()] = map[string]interface{}{"attainable_per_model": n, "attainable_but_not_observed": notObs, "observed_but_not_attainable_per_model": notAtt}
+	}
+	return out
+}
+
 // checkGrid checks one (score, severity) pair.  exempt: v2 environmental
 // result whose exact adjusted base is negative.
 func checkGrid(w *W, g *gridState, kind lib.Kind, mk func() Case, score float64, sev string, exempt bool) (band string) {
@@ -313,6 +404,7 @@ func runC06(r *Run) int {
 	})
 	r.Phase("v2 environmental")
 	r.Extra("per_decoder_score_coverage", g.summary())
+	r.Extra("model_attainable_vs_observed_tenths", attainableVsObserved(g))
 	r.Extra("objects_whose_levels_fall_into_different_bands", g.crossLvl.Load())
 	r.Extra("negative_zero_scores_observed_(numerically_0)", g.negZero.Load())
 	if r.Counter("valid_vector_not_decoded") > 0 || r.Counter("score_panicked") > 0 {
